@@ -69,6 +69,29 @@ def gen_counts(rng):
   return b, n, f, o
 
 
+def ref_mm_stage(thr, b, n, f, o):
+  """The documented stage table in exact arithmetic (the same table as `C14.mmSpec` in Lean, which the generated selector is
+  proved equal to by `rfl`).  Used as a driver-independent oracle: when the translation or a proof is broken there is no
+  model process to ask, and the search for a concrete failing input falls back on this."""
+  adj = max(b - f, max(o, 1))
+  served, completed = Fraction(n + o, adj), Fraction(n, adj)
+  polish = Fraction(11, 20) if thr else Fraction(13, 20)
+  par = str(n % 2)
+  if served <= Fraction(3, 20) or completed <= Fraction(1, 10):
+    return 0, "INITIALIZATION"
+  if served <= Fraction(3, 10):
+    return 1, "OPTIMIZING_ONE_METRIC_OPTIMIZE_" + par
+  if served <= Fraction(9, 20):
+    return 2, "CONVEX_COMBINATION_RANDOM_SPREAD"
+  if served <= Fraction(11, 20):
+    return 3, "CONVEX_COMBINATION_SEQUENTIAL"
+  if served <= polish:
+    return 4, "OPTIMIZING_ONE_METRIC_OPTIMIZE_" + par
+  if served <= Fraction(19, 20):
+    return 5, "EPSILON_CONSTRAINT_OPTIMIZE_" + par
+  return 6, "COMPLETION"
+
+
 def check_selectors(ctx, case):
   mm, snp, spe = mods()
   b, n, f, o, thr = case["b"], case["n"], case["f"], case["o"], case["thr"]
@@ -85,6 +108,15 @@ def check_selectors(ctx, case):
   if impl[1] is not None and not (0.0 <= impl[1] <= 1.0 + 1e-12):
     ctx.violation("C14 fraction_of_phase_completed outside [0,1]", {"case": case, "fraction": impl[1]})
     return
+  if abs(b) + abs(n) + abs(f) + abs(o) < 10 ** 14:
+    # within the proved float-faithfulness range the selector must sit on the documented stage of its counts
+    rs, rn = ref_mm_stage(thr, b, n, f, o)
+    if impl[0] != rn:
+      rs2, rn2 = ref_mm_stage(thr, b, n + 1, f, o)
+      ctx.violation(f"C14 identify_multimetric_phase returns {impl[0]} where the documented progress fractions give {rn} "
+                    f"(stage {rs}; the next observation count is at stage {rs2}: phases do not advance through the documented fractions)",
+                    {"case": case, "returned": impl[0], "documented": rn})
+      return
   if d:
     r = d.call({"op": "mm", "thr": thr, "b": b, "n": n, "f": f, "o": o})
     mk = None if r["kw"] is None else float(unfr(r["kw"]))
